@@ -460,6 +460,70 @@ class Assembler:
             pos = s.t[fp.k_body_open][1]
             ed.insert(pos, '\n' + txt + indent[:-4], order=-1)
 
+    def lift_closure(self, s, item, ed, spec, fnname, is_canary):
+        # 18: closure lifting -- the k-th closure of the function is emitted INSTEAD of the function, as a function of its own:
+        # the unit gives the signature (closure parameters first, then the captured variables, each by reference or by copy);
+        # the body is the closure's body text, token for token, with the edits that apply inside it (nested closure contracts,
+        # proof splices, abstractions).  What is proved is a contract of the closure body for all parameter and capture values;
+        # that the enclosing function calls the closure as its combinator chain says is not part of the proof.
+        lf = spec['lift']
+        fp = FnParts(item)
+        closures = fp.closures()
+        if lf['k'] >= len(closures):
+            raise ExtractError('lost anchor: closure %d of fn %s (has %d)' % (lf['k'], fnname, len(closures)))
+        ka, kb = closures[lf['k']]
+        pnames, d_, in_type, tdepth = [], 0, False, 0
+        for k in range(ka + 1, kb):
+            c = s.s(k)
+            if s.kind(k) == 'p':
+                if c in '([<':
+                    d_ += 1
+                elif c in ')]>':
+                    d_ -= 1
+                elif c == ':' and not in_type:
+                    in_type, tdepth = True, d_
+                elif c == ',' and in_type and d_ == tdepth:
+                    in_type = False
+            elif s.is_id(k) and not in_type and c not in ('mut', 'ref'):
+                pnames.append(c)
+        def subst(x):
+            for i_, n_ in enumerate(pnames):
+                x = x.replace('$%d' % i_, n_)
+            if re.search(r'\$\d', x):
+                raise ExtractError('lost anchor: lifted closure %d of fn %s has %d parameter name(s)' % (lf['k'], fnname, len(pnames)))
+            return x
+        m = s.match()
+        kbody = kb + 1
+        if s.is_p(kbody, '->'):
+            while not s.is_p(kbody, '{'):
+                kbody += 1
+        if s.is_p(kbody, '{'):
+            a, b = s.t[kbody][1], s.t[m[kbody]][2]
+            body = ed.apply(s.text, a, b)
+        else:
+            # expression body: runs to the `,` or `)` that closes the argument
+            j = kbody
+            while j < fp.k_body_close:
+                if s.kind(j) == 'p':
+                    c = s.s(j)
+                    if c in '([{':
+                        j = m[j] + 1
+                        continue
+                    if c in ')]},;':
+                        break
+                j += 1
+            body = '{ ' + ed.apply(s.text, s.t[kbody][1], s.t[j - 1][2]) + ' }'
+        res = spec.get('result')
+        ret = lf['ret']
+        head = 'pub fn %s(%s) -> %s\n' % (lf['name'], subst(lf['params']), ('(%s: %s)' % (res, ret)) if res else ret)
+        txt = self.clauses('requires', [subst(x) for x in spec.get('requires', [])], '    ', fnname)
+        ens = [subst(x) for x in spec.get('ensures', [])]
+        txt += self.clauses('ensures', ens, '    ', fnname)
+        if is_canary:
+            txt += ('    ensures\n' if not ens else '') + '        false, // @canary\n'
+        self.fired.add('18:closure-lifting')
+        return head + txt + body
+
     def fn_edits(self, s, item, ed, spec, fnname, is_canary):
         fp = FnParts(item)
         if fp.k_body_open is None:
@@ -491,7 +555,8 @@ class Assembler:
             ed.insert(item.start, '#[verifier::external_body]\n', order=-2)
             self.fired.add('11:assumed-contract(external_body)')
             return
-        self.fn_contract(s, fp, ed, spec, fnname, is_canary)
+        if not spec.get('lift'):
+            self.fn_contract(s, fp, ed, spec, fnname, is_canary)
         # 17: a `mut self` receiver (Verus: "does not yet support mut self"): `fn f(mut self, ..) { B }` becomes
         # `fn f(self, ..) { let mut verif_self = self; B' }` where B' is B with every `self` token renamed to `verif_self`;
         # contract clauses keep naming the parameter `self` (the value the caller passed)
@@ -792,6 +857,8 @@ class Assembler:
                     else:
                         endpos = s.t[f1][2] if f1 < br[1] else s.t[br[1]][1]
                         ed.delete(s.t[f0][1], endpos)
+                        # the `pub ` that visibility normalisation put in front of a private dropped field goes with it
+                        ed.e = [x for x in ed.e if not (x[1] == 0 and x[2] == 'pub ' and s.t[f0][1] <= x[0] < endpos)]
                     k = f1 + 1
                 missing = keep - seen
                 if missing:
@@ -806,7 +873,10 @@ class Assembler:
                         self.fired.add("6:'static on &str const")
                     if s.is_p(k, '='):
                         break
-            text = ed.apply(s.text, item.start, item.end)
+            if item.kind == 'fn' and spec.get('lift'):
+                text = self.lift_closure(s, item, ed, spec, fnname, self.canary == idx)
+            else:
+                text = ed.apply(s.text, item.start, item.end)
             text = re.sub(r'\n[ \t]*\n([ \t]*\n)+', '\n\n', text)
             parts.append('// @fn %s  [%s]\n' % (fnname, spec['file']))
             parts.append(text.rstrip() + '\n')
